@@ -296,6 +296,71 @@ def layer_unicode_forms():
 MUTATIONS = ("insert-interval", "insert-point", "delete-interval", "add-tier", "remove-tier", "rename-tier", "replace-tier")
 
 
+RESIDUE_BLOCK = 32
+
+
+def layer_residue(thorough):
+    """a complete residue cycle of the TEXT LENGTH: the same small textgrid with one label of n characters for 8192 consecutive n, so that the
+    length of the written text (in characters and, for the ASCII label, in bytes) passes through every residue modulo 8192 = io.DEFAULT_BUFFER_SIZE
+    and hence modulo every smaller power of two - a writer or reader that works in blocks has its block boundary at every possible place once.
+    thorough: also a two-byte character (bytes and characters disagree) and a cycle of 65536"""
+    step = RESIDUE_BLOCK * (8 if os.environ.get("VERIF_CHILD") else 1)      # the child runs (python -O, process with a past) take every 8th block
+    for c in ("x", "\u00e9") if thorough else ("x",):
+        for start in range(8192, 16384, step):
+            yield (c, start, RESIDUE_BLOCK, FMTS)
+    if thorough:
+        for start in range(65536, 131072, RESIDUE_BLOCK):
+            yield ("x", start, RESIDUE_BLOCK, FMTS[1:3])
+
+
+def check_residue(case):
+    c, start, count, fmts = case
+    d = scratch_dir()
+    fn = os.path.join(d, "c01-residue.TextGrid")
+    viols = []
+    n_ops = 0
+    ref = {}
+    for fmt in fmts:
+        for blanks in (True, False):
+            build(skeleton(l1=c * 7)).save(fn, fmt, blanks, None, None, 1e-8, "silence")
+            with open(fn, encoding="utf-8", newline="") as fd:
+                ref[fmt, blanks] = fd.read()
+            if ref[fmt, blanks].count(c * 7) != 1:
+                raise AssertionError(f"the reference text for {fmt} does not contain the label exactly once")
+    for n in range(start, start + count):
+        tg = build(skeleton(l1=c * n))
+        for fmt in fmts:
+            for blanks in (True, False):
+                st, r, _ = call(tg.save, fn, fmt, blanks, None, None, 1e-8, "silence")
+                n_ops += 1
+                cfg = f"a label of {n} x {c!r}, format={fmt} includeBlankSpaces={blanks}"
+                if st == "exc":
+                    viols.append(Viol("save-raised:" + type(r).__name__, f"{cfg}: save raised {r!r}"))
+                    continue
+                with open(fn, "rb") as fd:
+                    raw = fd.read()
+                exp = ref[fmt, blanks].replace(c * 7, c * n)
+                if raw != exp.encode("utf-8"):
+                    got = raw.decode("utf-8", "replace")
+                    viols.append(Viol("file-differs-at-this-length", f"{cfg}: the file ({len(raw)} bytes) is not the text written for a 7-character label with the "
+                                                                     f"label exchanged ({len(exp)} characters, {len(exp.encode('utf-8'))} bytes): {_firstdiff(exp, got)}"))
+                    continue
+                st, r, _ = call(_tgmod.openTextgrid, fn, True, "silence")
+                n_ops += 1
+                if st == "exc":
+                    viols.append(Viol("open-raised:" + type(r).__name__, f"{cfg}: reopening the file ({len(raw)} bytes) raised {r!r}"))
+                    continue
+                labs = [[e[-1] for e in t.entries] for t in r.tiers]
+                want = [[c * n, ""] + ["y", ""], ["z", "w"]] if False else None
+                got_first = labs[0][0] if labs and labs[0] else None
+                others = [x for t in labs for x in t if x != got_first]
+                if got_first != c * n or [x for x in others if x] != ["y", "z", "w"]:
+                    viols.append(Viol("roundtrip-mismatch", f"{cfg}: reopened labels are {[[x[:12] + ('...%d' % len(x) if len(x) > 12 else '') for x in t] for t in labs]}"))
+        if len(viols) > 4:
+            break
+    return n_ops, "ok" if not viols else "!", (c, start), viols
+
+
 def check_resave(case):
     """save -> mutate the SAME live textgrid -> save again: the second file must be what a freshly built textgrid with the
     same content writes (nothing about an earlier save may be remembered), and opening it must give the mutated content."""
@@ -370,6 +435,14 @@ def _snippet(case):
     return "\n".join(lines) + "\n"
 
 
+def residue_part(quick):
+    return InputPart("text-length-residue-cycle", lambda: layer_residue(not quick), check_residue,
+                     rule="one small textgrid with a label of n characters for EVERY n in 8192 .. 16383 (thorough: also with a two-byte character, and every n in "
+                          "65536 .. 131071 for two formats): the length of the written text passes through every residue modulo 8192 (and modulo every smaller "
+                          "power of two; thorough: modulo 65536), in each format x includeBlankSpaces: the file is byte for byte the text written for a short label "
+                          "with the label exchanged, and reopens to the same labels", bounds={"cycle": 8192, "lengths_per_case": RESIDUE_BLOCK}, chunk=1)
+
+
 def parts(tier):
     quick = tier == "quick"
     L = 4 if quick else 6
@@ -404,6 +477,7 @@ def parts(tier):
         InputPart("resave-after-mutation", lambda: ((si, mi) for si in range(12 if quick else 40) for mi in range(len(MUTATIONS))), check_resave,
                   rule="save, open, mutate the SAME live textgrid (%d mutations), save again x 4 formats x includeBlankSpaces: the second file equals "
                        "what a freshly built textgrid with the same content writes" % len(MUTATIONS), bounds={}, chunk=2),
+        residue_part(quick),
         InputPart("labels-unicode-forms", layer_unicode_forms, check,
                   rule="%d strings that are not in Unicode normalisation form C / KC (base letter + combining mark, conjoining jamo, ANGSTROM / OHM sign, "
                        "ligatures), that change under case folding, and pairs that are canonically equivalent to each other, as labels and tier names: "
